@@ -61,8 +61,13 @@ Fixpoint upd {A} (l : list A) (n : nat) (v : A) : list A :=
 
 Definition alloc (v : list Z) : M bloc :=
   fun s => (mkS (sb s ++ [v]) (st s), Ok (length (sb s))).
+(* internal consistency: a table object only ever refers to existing arrays (a dangling reference is a
+   RuntimeError of the model; the correspondence shows it never happens) *)
+Definition valid_fields (s : store) (fs : list (fid * bloc)) : bool :=
+  forallb (fun p => Nat.ltb (snd p) (length (sb s))) fs.
 Definition newtab (x : table) : M tloc :=
-  fun s => (mkS (sb s) (st s ++ [x]), Ok (length (st s))).
+  fun s => if valid_fields s (tf x) then (mkS (sb s) (st s ++ [x]), Ok (length (st s)))
+           else (s, Err RuntimeError).
 Definition rdbuf (b : bloc) : M (list Z) :=
   fun s => match nth_error (sb s) b with Some v => (s, Ok v) | None => (s, Err RuntimeError) end.
 Definition rdtab (t : tloc) : M table :=
@@ -70,7 +75,8 @@ Definition rdtab (t : tloc) : M table :=
 Definition wrbuf (b : bloc) (v : list Z) : M unit :=
   fun s => (mkS (upd (sb s) b v) (st s), Ok tt).
 Definition wrtab (t : tloc) (x : table) : M unit :=
-  fun s => (mkS (sb s) (upd (st s) t x), Ok tt).
+  fun s => if valid_fields s (tf x) then (mkS (sb s) (upd (st s) t x), Ok tt)
+           else (s, Err RuntimeError).
 
 Definition zlen {A} (l : list A) : Z := Z.of_nat (length l).
 
@@ -116,9 +122,16 @@ Fixpoint scatter (v : list Z) (ps : list nat) (vals : list Z) : list Z :=
 
 (* a[sel] = vals  (a length-1 right-hand side is broadcast) *)
 Definition assign_sel (v : list Z) (s : sel) (vals : list Z) : res (list Z) :=
-  do ps <- positions (length v) s;
-  let vals' := match vals with [x] => repeat x (length ps) | _ => vals end in
-  if Nat.eqb (length vals') (length ps) then Ok (scatter v ps vals') else Err ValueError.
+  let bc := fun k => match vals with [x] => repeat x k | _ => vals end in
+  match s with
+  | SIdx l =>      (* numpy checks the shapes before the index bounds *)
+      if Nat.eqb (length (bc (length l))) (length l)
+      then do ps <- positions (length v) s; Ok (scatter v ps (bc (length l)))
+      else Err ValueError
+  | SMask _ =>
+      do ps <- positions (length v) s;
+      if Nat.eqb (length (bc (length ps))) (length ps) then Ok (scatter v ps (bc (length ps))) else Err ValueError
+  end.
 
 (* ---------------------------------------------------------------- DataFieldRecordArray *)
 
@@ -148,13 +161,25 @@ Definition t_new (fs : list (fid * bloc)) : M tloc :=
   | n :: r => if forallb (Z.eqb n) r then newtab (mkT fs n) else raise ValueError
   end.
 
+(* np.copyto(np.empty((length,)), column): equal length, or a length-1 column is broadcast *)
+Definition copyto_bcast (n : Z) (v : list Z) : res (list Z) :=
+  if zlen v =? n then Ok v
+  else match v with
+       | [x] => Ok (repeat x (Z.to_nat n))
+       | _ => Err ValueError
+       end.
+
+(* the three functions through which a new DataFieldRecordArray is derived from an existing one have exactly
+   the statement skeleton that was modelled (kernels gs_shape, gi_shape, cp_shape, ss_shape) *)
+Definition storage_shapes_pinned : bool := gs_shape && gi_shape && cp_shape && ss_shape.
+
 (* DataFieldRecordArray(self, keep_fields=keep): every kept column is copied *)
 Definition t_copy (t : tloc) (keep : option (list fid)) : M tloc :=
   mdo x <-- rdtab t ;;
   let kept := filter (fun p => match keep with None => true | Some k => memf (fst p) k end) (tf x) in
   mdo fs <-- mapMM (fun p => mdo v <-- rdbuf (snd p) ;;
-                         if zlen v =? tlen x then mdo b <-- alloc v ;; ret (fst p, b)
-                         else raise ValueError) kept ;;
+                         mdo v' <-- lift (copyto_bcast (tlen x) v) ;;
+                         mdo b <-- alloc v' ;; ret (fst p, b)) kept ;;
   newtab (mkT fs (match fs with [] => 0 | _ => tlen x end)).
 
 (* get_selection / self[ndarray]: advanced indexing copies every column *)
@@ -163,7 +188,7 @@ Definition t_select (t : tloc) (s : sel) : M tloc :=
   mdo fs <-- mapMM (fun p => mdo v <-- rdbuf (snd p) ;;
                          mdo ps <-- lift (positions (length v) s) ;;
                          mdo v' <-- lift (gather v ps) ;;
-                         mdo b <-- alloc v' ;; ret (fst p, b)) (tf x) ;;
+                         mdo b <-- alloc (map gs_take v') ;; ret (fst p, b)) (tf x) ;;
   t_new fs.
 
 (* set_selection: all fields checked first (fix 37af686), then written IN PLACE *)
@@ -751,3 +776,65 @@ Fixpoint obs_calls (gs : list (list op)) (w : world) :=
   | [] => []
   | g :: r => let (w1, s) := run_seq g w in (s, observe w1) :: obs_calls r w1
   end.
+
+(* ---------------------------------------------------------------- direct use of the table operations
+   (probe of the storage semantics: every index kind, broadcast, error paths with their partial effects) *)
+Inductive top :=
+| TSel (r : nat) (sl : sel)                 (* regs += r[sl] *)
+| TCopy (r : nat) (keep : option (list fid)) (* regs += r.copy(keep) *)
+| TSet (r : nat) (sl : sel) (src : nat)     (* r[sl] = src *)
+| TAppend (r src : nat)
+| TSort (r : nat) (f : fid) (perm : list Z)
+| TTidy (r : nat) (keep : list fid)
+| TSetItem (r : nat) (f : fid) (v : list Z) (* r[f] = new array *)
+| TAlias (r : nat) (f g : fid).             (* r[f] = r[g] (the same array) *)
+
+Definition reg (regs : list tloc) (r : nat) : M tloc :=
+  match nth_error regs r with Some t => ret t | None => raise IndexError end.
+
+Definition top_run (o : top) (regs : list tloc) : M (list tloc) :=
+  match o with
+  | TSel r sl => mdo t <-- reg regs r ;; mdo t' <-- t_select t sl ;; ret (regs ++ [t'])
+  | TCopy r keep => mdo t <-- reg regs r ;; mdo t' <-- t_copy t keep ;; ret (regs ++ [t'])
+  | TSet r sl src => mdo t <-- reg regs r ;; mdo u <-- reg regs src ;; mdo _ <-- t_set_selection t sl u ;; ret regs
+  | TAppend r src => mdo t <-- reg regs r ;; mdo u <-- reg regs src ;; mdo _ <-- t_append t u ;; ret regs
+  | TSort r f perm => mdo t <-- reg regs r ;; mdo _ <-- t_sort t f perm ;; ret regs
+  | TTidy r keep => mdo t <-- reg regs r ;; mdo _ <-- t_tidy t keep ;; ret regs
+  | TSetItem r f v => mdo t <-- reg regs r ;; mdo b <-- alloc v ;; mdo _ <-- t_setitem t f b ;; ret regs
+  | TAlias r f g => mdo t <-- reg regs r ;; mdo b <-- t_getitem t g ;; mdo _ <-- t_setitem t f b ;; ret regs
+  end.
+
+Definition reg_obs (s : store) (regs : list tloc) :=
+  (map (view s) regs,
+   concat (map (fun it => match nth_error (st s) (snd it) with
+                          | Some x => map (fun p => (fst it, fst p, snd p)) (tf x)
+                          | None => []
+                          end) (combine (seq 0 (length regs)) regs))).
+
+Fixpoint tops_run (os : list top) (regs : list tloc) (s : store) : list (res unit) * (store * list tloc) :=
+  match os with
+  | [] => ([], (s, regs))
+  | o :: r => match top_run o regs s with
+              | (s', Ok regs') => let (ss, fin) := tops_run r regs' s' in (Ok tt :: ss, fin)
+              | (s', Err e) => let (ss, fin) := tops_run r regs s' in (Err e :: ss, fin)
+              end
+  end.
+
+(* tables given column by column (columns may have different lengths: an inconsistent table) *)
+Definition tops_obs (tabs : list (list (fid * list Z))) (os : list top) :=
+  let '(s0, r0) := mapMM build_one tabs empty_store in
+  let regs := match r0 with Ok l => l | Err _ => [] end in
+  let '(ss, (s, regs')) := tops_run os regs s0 in
+  (ss, reg_obs s regs').
+
+Fixpoint nodupb (l : list nat) : bool :=
+  match l with
+  | [] => true
+  | a :: r => negb (existsb (Nat.eqb a) r) && nodupb r
+  end.
+
+(* every index kind on a 4-row table: single row, contiguous rows, empty, full mask, negative index, all rows in
+   order; then a copy, and a length-1 set_selection broadcast *)
+Definition ex_tops : list top :=
+  [TSel 0 (SIdx [2]); TSel 0 (SIdx [1; 2; 3]); TSel 0 (SIdx []); TSel 0 (SMask [true; true; true; true]);
+   TSel 0 (SIdx [-1]); TSel 0 (SIdx [0; 1; 2; 3]); TCopy 0 None; TSet 0 (SIdx [0; 3]) 1; TSel 0 (SIdx [4])].
